@@ -117,6 +117,22 @@ def strip_comments(src: str) -> str:
     return src
 
 
+def import_closure(roots: list[Path]) -> list[Path]:
+    """The project files a property's theorems and driver handlers depend on (transitively)."""
+    seen: dict[Path, None] = {}
+    todo = [r for r in roots if r.exists()]
+    while todo:
+        f = todo.pop()
+        if f in seen:
+            continue
+        seen[f] = None
+        for m in re.findall(r"^import\s+(GEVerif[\w.]*)", f.read_text(), flags=re.M):
+            q = LEAN / (m.replace(".", "/") + ".lean")
+            if q.exists():
+                todo.append(q)
+    return list(seen)
+
+
 def audit(prop: str) -> dict:
     """#print axioms for every `theorem Cxx_*` in Props/Cxx.lean; forbidden-token grep."""
     pfile = LEAN / "GEVerif" / "Props" / f"{prop}.lean"
@@ -149,7 +165,7 @@ def audit(prop: str) -> dict:
         else:
             bad.append((n, sorted(axs - ALLOWED_AXIOMS)))
     hits = []
-    for f in list((LEAN / "GEVerif").rglob("*.lean")) + [LEAN / "Driver.lean"]:
+    for f in import_closure([pfile, LEAN / "GEVerif" / "Drive" / f"{prop}.lean"]):
         for i, line in enumerate(strip_comments(f.read_text()).splitlines(), 1):
             if FORBIDDEN.search(line):
                 hits.append(f"{f.relative_to(LEAN)}:{i}: {line.strip()}")
